@@ -158,6 +158,12 @@ class FnVerifier:
         h = None
         if isinstance(node, ast.Assign) and len(node.targets) == 1 and isinstance(node.targets[0], ast.Name):
             h = self.c.locals.get(node.targets[0].id)
+        elif isinstance(node, ast.Assign) and len(node.targets) == 1 and isinstance(node.targets[0], ast.Attribute):
+            attr = node.targets[0].attr
+            for t in list(self.c.globals.values()) + list(self.c.params.values()):
+                if isinstance(t, T.Ty) and t.kind == "obj" and attr in t.fields:
+                    h = t.fields[attr]
+                    break
         self.hint_stack.append(h)
 
     def pop_hint(self):
@@ -363,8 +369,7 @@ class FnVerifier:
             for fn_, ft in ty.fields.items():
                 if ft is T.Const:
                     continue
-                if isinstance(ft, tuple) and ft[0] == "optional":
-                    ft = ft[1]
+                if fn_ in ty.optional:
                     fields["__missing_" + fn_] = V(T.Bool, z3.Bool("%s.%s?missing" % (name, fn_)))
                 if ft.kind == "nullable":
                     fields[fn_] = V(ft, (z3.Bool("%s.%s?none" % (name, fn_)), self.alloc_symbolic(R, ft.inner, "%s.%s" % (name, fn_))))
@@ -470,6 +475,8 @@ class FnVerifier:
         for ext in self.c.externals.values():
             if ext.event == evname and getattr(ext, "log_type", None) is not None:
                 return ext.log_type
+            if ext.event == evname and ext.log == "const":
+                return T.Int
         return T.Str
 
     def statement_asserts(self, R, node, frame):
@@ -579,6 +586,8 @@ class FnVerifier:
             if li == "recv":
                 if recv is not None:
                     self.emit_log(R, ext.event, recv)
+            elif li == "const":
+                self.emit_log(R, ext.event, mk_int(1))
             elif li < len(args) and not args[li].is_const and not args[li].t.heap and args[li].t == self.log_type(ext.event):
                 lt = self.log_type(ext.event)
                 st = T.Seq(lt)
@@ -700,8 +709,30 @@ class FnVerifier:
             res = fresh(rt, cname + ".ret")
         env["result"] = res
         self.bind_lets(R, cc, env, old)
-        for lbl, en in cc.ensures.items():
-            R.assume(R.truthy(self.spec_in_env(R, en, env, old_heap=old)))
+        saved_named = R.named_heaps
+        R.named_heaps = {}  # the callee's own snapshot labels mean nothing here: such clauses are skipped
+        # event logs: the callee's clauses speak about the events of *that call* (a fresh delta
+        # sequence), which is then appended to the caller's log
+        deltas = {}
+        for ext in cc.externals.values():
+            if ext.event and ext.event not in deltas and (cc.emits is None or ext.event in cc.emits):
+                lt = ext.log_type or (T.Int if ext.log == "const" else (ext.args[0] if (ext.log == "recv" and ext.args) else None))
+                cur = R.ghost.get(("log", ext.event))
+                if lt is None:
+                    lt = cur.t.elem if cur is not None else self.log_type(ext.event)
+                st = T.Seq(lt)
+                deltas[ext.event] = (cur, fresh(st, "dlog_" + ext.event.replace(".", "_")))
+                R.ghost[("log", ext.event)] = deltas[ext.event][1]
+        try:
+            for lbl, en in cc.ensures.items():
+                try:
+                    R.assume(R.truthy(self.spec_in_env(R, en, env, old_heap=old)))
+                except ClauseVacuous:
+                    continue
+        finally:
+            R.named_heaps = saved_named
+            for e_, (cur, d) in deltas.items():
+                R.ghost[("log", e_)] = d if cur is None or cur.t != d.t else V(d.t, z3.Concat(cur.z, d.z))
         for label, callee in self.c.snapshots.items():
             if callee == cname.split(".")[-1] and label not in R.named_heaps:
                 R.named_heaps[label] = R.snapshot()
@@ -876,6 +907,7 @@ class FnVerifier:
                 except ClauseVacuous:
                     continue
                 self.add_obligation(R, "ensures", lbl, g, clause=en)
+            self.frame_events(R)
         else:
             exc = payload
             R.labels.append("raise:" + exc.cls)
@@ -898,6 +930,16 @@ class FnVerifier:
                     except ClauseVacuous:
                         continue
                     self.add_obligation(R, "ensures-exc", lbl, g, clause=en)
+
+    def frame_events(self, R):
+        c = self.c
+        if c.emits is None:
+            return
+        for ev in sorted({e.event for e in c.externals.values() if e.event}):
+            if ev not in c.emits:
+                lg = R.ghost.get(("log", ev))
+                g = z3.BoolVal(True) if lg is None else z3.Length(lg.z) == 0
+                self.add_obligation(R, "frame", "emits-no-" + ev, g, clause="event %s is not in `emits`" % ev)
 
     def _old(self, R, src, env):
         """evaluate a condition over the entry state"""
